@@ -585,4 +585,85 @@ theorem resolveSubjectDID_of_all {l : List Cred} {s acc : String}
 def signedViewVP (defined : String → Bool) (vp : Pres) : Option String × List (SignedView × String) :=
   (vp.holder, vp.vcs.map (fun c => (signedView defined c, c.raw)))
 
+/-! ## trust store -/
+
+theorem alGet_alPut_same (m : List (String × List String)) (k : String) (v : List String) :
+    alGet (alPut m k v) k = some v := by
+  simp [alGet, alPut]
+
+theorem alGet_filter_ne (m : List (String × List String)) (k k' : String) (h : k' ≠ k) :
+    alGet (m.filter (fun p => !(p.1 == k))) k' = alGet m k' := by
+  unfold alGet
+  rw [List.find?_filter]
+  congr 2
+  funext a
+  by_cases ha : a.1 = k'
+  · simp [ha, h]
+  · simp [ha]
+
+theorem alGet_alPut_other (m : List (String × List String)) (k k' : String) (v : List String) (h : k' ≠ k) :
+    alGet (alPut m k v) k' = alGet m k' := by
+  have := alGet_filter_ne m k k' h
+  unfold alPut
+  unfold alGet at this ⊢
+  have hk : (k == k') = false := by simp; exact fun e => h e.symm
+  rw [List.find?_cons]
+  simp only [hk]
+  exact this
+
+theorem isTrusted_alPut_same (s : TrustStore) (t i : String) (l : List String) :
+    isTrusted (alPut s t l) t i = l.contains i := by
+  simp [isTrusted, trustList, alGet_alPut_same]
+
+theorem untrust_effective (s : TrustStore) (t i : String) (hi : i ≠ "") :
+    isTrusted (removeTrust s t i) t i = false := by
+  unfold removeTrust
+  cases h : isTrusted s t i with
+  | false => simp [h]
+  | true =>
+    simp only [Bool.not_true, Bool.false_eq_true, if_false]
+    rw [isTrusted_alPut_same]
+    simp only [List.contains_eq_mem, List.mem_append, List.mem_filter, List.mem_replicate, decide_eq_false_iff_not]
+    intro hc
+    rcases hc with ⟨_, hne⟩ | ⟨_, he⟩
+    · simp at hne
+    · exact hi he
+
+theorem untrust_other_type (s : TrustStore) (t i t' i' : String) (h : t' ≠ t) :
+    isTrusted (removeTrust s t i) t' i' = isTrusted s t' i' := by
+  unfold removeTrust
+  cases hh : isTrusted s t i with
+  | false => simp
+  | true =>
+    simp only [Bool.not_true, Bool.false_eq_true, if_false]
+    simp [isTrusted, trustList, alGet_alPut_other _ _ _ _ h]
+
+theorem untrust_other_issuer (s : TrustStore) (t i i' : String) (h : i' ≠ i) (hi' : i' ≠ "") :
+    isTrusted (removeTrust s t i) t i' = isTrusted s t i' := by
+  unfold removeTrust
+  cases hh : isTrusted s t i with
+  | false => simp
+  | true =>
+    simp only [Bool.not_true, Bool.false_eq_true, if_false]
+    rw [isTrusted_alPut_same]
+    unfold isTrusted
+    rw [Bool.eq_iff_iff]
+    simp only [List.contains_eq_mem, List.mem_append, List.mem_filter, List.mem_replicate, decide_eq_true_eq]
+    constructor
+    · intro hc
+      rcases hc with ⟨hm, _⟩ | ⟨_, he⟩
+      · exact hm
+      · exact absurd he hi'
+    · intro hm
+      exact Or.inl ⟨hm, by simpa using h⟩
+
+theorem trust_after_add (s : TrustStore) (t i : String) : isTrusted (addTrust s t i) t i = true := by
+  unfold addTrust
+  cases h : isTrusted s t i with
+  | true => simp [h]
+  | false =>
+    simp only [Bool.false_eq_true, if_false]
+    rw [isTrusted_alPut_same]
+    simp
+
 end Nuts.C01
